@@ -34,8 +34,8 @@ PROP = dict(
                  "desired profiles have one entry per mount point and never nest entries beneath file or symlink entries",
                  "after a failing layout/overname change the real program exits without saving; the history ends there"],
     engines=[
-        gt("history", "cmd/snap-update-ns", "TestVerifC28History", dict(checks=3000, shards=2), dict(checks=30000, shards=16),
+        gt("history", "cmd/snap-update-ns", "TestVerifC28History", dict(checks=1500, shards=2), dict(checks=8000, shards=16),
            build_env={"CGO_CFLAGS": "-I/verif/harness/cstubs"}),
-        gt("codec", "osutil", "TestVerifC28Codec", dict(checks=20000, shards=2), dict(checks=200000, shards=16)),
+        gt("codec", "osutil", "TestVerifC28Codec", dict(checks=10000, shards=2), dict(checks=50000, shards=16)),
     ],
 )
